@@ -513,23 +513,41 @@ def coq_crosscheck(chk, mls, mo):
                 else:
                     ops.append("TqTask None")
             progs.append("[" + ";".join(ops) + "]")
-        sched, exp = [], []
+        sched, exp, wexp = [], [], []
         evs = m.split(" | ")[0].split()
-        for tok, ev in zip(t[3:], evs):
+        popsl = [([] if p in ("-", "") else p.split(",")) for p in t[2][6:].split("/")]
+        grets = {}
+        for x in m.split(" | ")[1].split() if " | " in m else []:
+            if x.startswith("gret:"):
+                g = x.split(":")
+                grets[int(g[1])] = g[2:]
+        for n, (tok, ev) in enumerate(zip(t[3:], evs)):
             f = tok.split(":")
+            e = ev.split(":")
             if f[0] == "G":
+                if ev == "get:noref":
+                    continue
+                # the handle the call returned (theorem tq_call_returns_own_handle)
+                op = popsl[int(f[1])][int(f[2])]
+                sched.append("TqGGet TqHEmpty" if op == "n" else "TqGGet (TqHTask (%s, %s))" % (f[1], f[2]))
+                if e[1] == "blocked":
+                    exp.append("(11,0,0)")
+                    g = grets.get(n)
+                    wexp.append("None" if g is None or g[0] == "never" else "Some (%s, %s)%%Z" % (g[1], g[2]))
+                else:
+                    exp.append("(10,%s,%s)" % (e[1], e[2]))
+                    wexp.append("Some (%s, %s)%%Z" % (e[1], e[2]))
                 continue
             if f[0] == "P":
-                sched.append("TqProd %s %s" % (f[1], "true" if f[2] == "1" else "false"))
+                sched.append("TqGBase (TqProd %s %s)" % (f[1], "true" if f[2] == "1" else "false"))
             elif f[0] == "R":
-                sched.append("TqRecv %s" % f[1])
+                sched.append("TqGBase (TqRecv %s)" % f[1])
             else:
-                sched.append({"S": "TqStore", "D": "TqDone", "C": "TqClose"}[f[0]])
-            e = ev.split(":")
+                sched.append("TqGBase " + {"S": "TqStore", "D": "TqDone", "C": "TqClose"}[f[0]])
             code = ["sent", "blocked", "skipped", "empty", "nil", "recv", "store", "done", "close", "none"].index(e[0])
             a, b = (int(e[1]), int(e[2])) if e[0] in ("sent", "blocked", "skipped", "recv", "store", "done") else (0, 0)
             exp.append("(%d,%d,%d)" % (code, a, b))
-        items.append("(%d, [%s], [%s], [%s])" % (size, ";".join(progs), ";".join(sched), ";".join(exp)))
+        items.append("(%d, [%s], [%s], [%s], [%s])" % (size, ";".join(progs), ";".join(sched), ";".join(exp), ";".join(wexp)))
         if len(items) >= 150:
             break
     if not items:
@@ -542,13 +560,33 @@ Definition code (e : tq_ev) : nat * nat * nat :=
   | TqESkipped _ t => (2, fst (tq_id t), snd (tq_id t)) | TqERetEmpty _ => (3, 0, 0) | TqERetNil _ => (4, 0, 0)
   | TqERecv t _ => (5, fst (tq_id t), snd (tq_id t)) | TqEStore t => (6, fst (tq_id t), snd (tq_id t))
   | TqEDone t => (7, fst (tq_id t), snd (tq_id t)) | TqEClose _ => (8, 0, 0) | TqENone => (9, 0, 0) end.
+Definition gcode (e : tq_gev) : nat * nat * nat :=
+  match e with
+  | TqGEBase b _ => code b | TqGERet _ p => (10, Z.to_nat (fst p), Z.to_nat (snd p)) | TqGEPark _ => (11, 0, 0) end.
 Fixpoint eqb3 (a b : list (nat * nat * nat)) : bool :=
   match a, b with
   | [], [] => true
   | (x1, y1, z1) :: a', (x2, y2, z2) :: b' => (x1 =? x2) && (y1 =? y2) && (z1 =? z2) && eqb3 a' b'
   | _, _ => false end.
-Definition ok (c : nat * list (list tq_op) * list tq_act * list (nat * nat * nat)) : bool :=
-  match c with (cap, progs, sched, e) => eqb3 (map code (tq_trace (tq_init cap progs) sched)) e end.
+Definition eqbo (a b : option tq_pair) : bool :=
+  match a, b with
+  | None, None => true
+  | Some (x1, y1), Some (x2, y2) => (x1 =? x2)%%Z && (y1 =? y2)%%Z
+  | _, _ => false end.
+Fixpoint eqbw (a b : list (option tq_pair)) : bool :=
+  match a, b with
+  | [], [] => true
+  | x :: a', y :: b' => eqbo x y && eqbw a' b'
+  | _, _ => false end.
+(* the waiters' returns reported by the events = the waiters' final states *)
+Definition rets_of_events (n : nat) (tr : list tq_gev) : list (option tq_pair) :=
+  map (fun w => option_map snd (find (fun x => fst x =? w) (tq_greturns tr))) (seq 0 n).
+Definition ok (c : nat * list (list tq_op) * list tq_gact * list (nat * nat * nat) * list (option tq_pair)) : bool :=
+  match c with (cap, progs, gs, e, we) =>
+    let '(g, tr) := tq_grun (tq_ginit cap progs) gs in
+    eqb3 (map gcode tr) e && eqbw (map tq_w_ret (tq_waiters g)) we &&
+    eqbw (rets_of_events (length (tq_waiters g)) tr) we &&
+    eqb3 (map code (tq_gbase_trace tr)) (map code (tq_trace (tq_init cap progs) (tq_gbase_sched gs))) end.
 Definition cases := [%s].
 Definition bad := Eval vm_compute in length (filter (fun c => negb (ok c)) cases).
 Print bad.
